@@ -7,8 +7,15 @@ WChar == 8
 WShort == 16
 WInt == 32
 WLong == 64
+(* bit length of a non-negative BV: the highest non-zero limb and the bits of that limb *)
+BVBitLen(a) == LET hi == FoldLeft(LAMBDA acc, i : IF a[i] # 0 THEN i ELSE acc, 0, Idx)
+               IN IF hi = 0 THEN 0
+                  ELSE 8 * (hi - 1) + (CHOOSE k \in 1..8 : a[hi] < 2 ^ k /\ a[hi] >= 2 ^ (k - 1))
+PFlt == 24
+PDbl == 53
+PLdbl == 64
 
 INSTANCE CInt WITH ZI <- FromInt, ZAdd <- Add, ZSub <- Sub, ZMul <- Mul, ZDivT <- DivT, ZModT <- ModT,
                    ZLt <- Lt, ZAndW <- BAnd, ZOrW <- BOr, ZXorW <- BXor, ZPow2 <- Pow2, ZShr <- ShrA,
-                   ZWrap <- Wrap, ZToInt <- ToInt
+                   ZWrap <- Wrap, ZToInt <- ToInt, ZBitLen <- BVBitLen
 =============================================================================
